@@ -103,6 +103,11 @@ def _gen_pop_case(rnd, want, opened, dynamic_only=False):
             for v, d in op['vars'].items():
                 if v in de or (d[0] == 'const' and rnd.random() < 0.7):
                     params[v] = [vals.new() for _ in range(n)]
+                    if d[0] == 'const' and isinstance(d[1], int) and n >= 2 and rnd.random() < 0.6:
+                        # integer-declared constant whose per-unit list STARTS with whole numbers (the list must become a float vector
+                        # whichever entry is the first fractional one)
+                        for i_ in range(rnd.randint(1, n - 1)):
+                            params[v][i_] = float(rnd.choice([1, 2, 3, 4])) if rnd.random() < 0.5 else rnd.choice([1, 2, 3, 4])
             pops[name] = {'op': opn, 'n': n, 'params': params}
         conns = []
         risk = set()
